@@ -218,7 +218,7 @@ class C18(Check):
                     if not np.allclose(C["est_p"], cov, rtol=1e-9, atol=1e-18):
                         viol.append({"clause": "combined-covariance", "key": r["cls"], "detail": f"{where}: combined covariance differs from the moment-matched mixture covariance by {float(np.max(np.abs(C['est_p'] - cov))):.3e}"})
                         break
-                    if not np.allclose(C["est_p"], C["est_p"].T, rtol=1e-12, atol=1e-20) or float(np.min(np.linalg.eigvalsh((C["est_p"] + C["est_p"].T) / 2))) < -1e-12 * float(np.max(np.abs(C["est_p"]))):
+                    if float(np.max(np.abs(C["est_p"] - C["est_p"].T))) > 1e-9 * float(np.max(np.abs(C["est_p"]))) or float(np.min(np.linalg.eigvalsh((C["est_p"] + C["est_p"].T) / 2))) < -1e-12 * float(np.max(np.abs(C["est_p"]))):
                         viol.append({"clause": "combined-covariance-not-psd", "key": r["cls"], "detail": f"{where}: combined covariance is not symmetric positive semi-definite"})
                         break
                     cnt["mixtures_checked"] = cnt.get("mixtures_checked", 0) + 1
